@@ -4,3 +4,5 @@ From V9 Require Import Gen.Shape Shape.ShapeLib.
 
 Lemma client_failure_order_ok : client_failure_order = true.      Proof. vm_compute. reflexivity. Qed.
 Lemma client_failure_paths_ok : client_failure_paths = true.        Proof. vm_compute. reflexivity. Qed.
+Lemma reqfree_clears_slot_ok : reqfree_clears_slot = true.          Proof. vm_compute. reflexivity. Qed.
+Lemma clnt_send_closes_on_write_error_ok : clnt_send_closes_on_write_error = true.  Proof. vm_compute. reflexivity. Qed.
